@@ -4,6 +4,7 @@ import (
 	"encoding/json"
 	"fmt"
 	"hash/fnv"
+	"math"
 	"runtime"
 	"sort"
 	"strings"
@@ -105,12 +106,25 @@ func init() {
 			"blocked+timeout (the same with all others approving, timeout 30-50 ms: the write ends with exactly one error result, awaited by observing it); blocked callbacks give a late approval / denial or nothing after the end; " +
 			"blocked+verdict-at-end (timeout 1 h, the others approve, the blocked callbacks approve - one in four: deny - when the case ends: the write stays pending with a partial tally while later writes are decided, and is applied / rejected when the last verdict call has returned). " +
 			"After every write: every callback must have been presented with it by the time the process is quiescent except for the callbacks the harness keeps parked (goroutine count == idle count + parked callbacks: nothing is left that could present it), then every write is judged by the long / short rules. " +
+			"part 'shapes': k in {1,2,3}, 2-5 writes of one bound peer pending together (timeout 1 h), each of a drawn shape: the ordinary partial write of one changeable element, a partial write of an identifier the list does not hold, a partial write of an element that is not changeable, " +
+			"and at most one full write (no filter) or delete-selector write, decided last; verdict vectors all-approve (two in three) or with one denial; the verdict calls are made one at a time in a drawn order and after EVERY call the results on the tap, the core-level data change events and the whole list are compared with the state before the call: " +
+			"a non-deciding call changes nothing; a denial gives exactly one error result and nothing else; the last approval applies an ordinary write (one element changed, one event, success result iff requested), gives exactly one error result and unchanged data for a write the data layer refuses (unknown identifier, unchangeable element) and " +
+			"exactly one consistent outcome (error result + unchanged data + no event, or no error result + one event + success result iff requested) for the full / delete write. " +
+			"part 'latecb': k in {1,2} callbacks, 1-2 writes become pending (timeout 120-200 ms) and get a drawn prefix of their verdicts, then the application registers one more approval callback, then 1-2 further writes arrive (timeout 1 h, presented to k+1 callbacks); all remaining verdict calls one at a time in a drawn order. " +
+			"The statement does not say whether a callback registered while a write is pending has a say in that write, so for the earlier writes only this is judged: never applied before every callback it WAS presented to has approved, never applied with a denial, exactly one outcome in the end (applied or one error result); the later writes by the long rules with k+1 callbacks. " +
+			"Message counters (parts vectors, interleave, mixed, gate, expiry, blocking, shapes, latecb): in three cases of four the writing peers number their writes from a boundary value - the largest uint64 (then 0, 1, ..: wrap-around), 0, or 1 - on both connections alike (same=true) or with different boundary values. " +
+			"Parts vectors and mixed, one case in four: the case ends with a write WITHOUT msgCounter under a 30-50 ms approval timeout, its callbacks answering at once, after the timeout or never: at most one outcome, no panic, the process survives the timeout (a crash on a timer goroutine is attributed to the case by the parent), the next write is served. " +
+			"Part mixed also draws: class timely (timeout 300-500 ms, no silent callback, all verdict calls made one after the other when 0/30/55/75/90 per cent of the timeout have passed; if the last call has returned before the timeout can have passed since a moment BEFORE the write was handed over, unanimous approval must have been applied), " +
+			"concurrent arrival (layouts 0 and 1: after each peer's first write the remaining 2-4 writes are sent by one goroutine per peer WHILE 1-2 goroutines deliver the early verdicts of the first writes) and, in layout 0 (also part vectors), the removal of entity [1] of the OTHER peer (which has nothing pending) announced while the writes - from entity [1] of their own device - are pending. " +
+			"Every result for a write is compared: source = the server feature written to, destination = the writing client feature, and for a write that only a denial can have ended (timeout 1 h) error number and description are those handed to ApproveOrDenyWrite by one of its denials (numbers 1..9 and descriptions differ per callback and write). " +
 			"A case is non-trivial if every write of the plan was decided (all its callbacks seen, its outcome judged) with nothing inconclusive; distinct = distinct plan shapes (values and counters excluded).",
 		Assumptions: []string{
 			"message handling up to the spawning of the approval callbacks is synchronous in HandleSpineMesssage; the callbacks themselves run on goroutines of the stack and are awaited by goroutine-count quiescence",
 			"a write is identified by the unique value it carries; all writes of a case address different existing changeable elements through a partial filter (a write adding an identifier would be acknowledged without being applied, DESIGN.md D7)",
 			"a write whose binding is removed while it is pending stays authorised (it was authorised when it came in); this is how two peers get pending writes on one feature",
-			"a write datagram without msgCounter cannot be answered by reference; for it only 'answering the callback does not panic or wedge the feature' is asserted",
+			"a write datagram without msgCounter cannot be answered by reference and the statement does not say whether it is a write at all: for it only 'at most one outcome (at most one datagram answering none of the numbered messages, never applied AND an error result), answering the callbacks does not panic or wedge the feature, and the process survives the approval timeout' is asserted",
+			"class timely: the only use of the clock in a verdict is the sound direction 'a timer never fires early': the approval timer of a write is armed after the moment taken before the write is handed to the stack, so a verdict call that has returned less than the timeout after that moment came before the timeout; a late return (loaded machine) makes the rule not apply (either outcome accepted)",
+			"parts shapes: a partial write of an identifier the list does not hold and a partial write of an element whose isLimitChangeable is false are refused by the data layer (property C04 decides that); which of the two outcomes a full write or a delete-selector write gets is not decided here",
 			"SetWriteApprovalTimeout is called only while no message is being handled",
 			"part 'blocking': a callback function may take arbitrarily long to return (the statement lets a callback stay silent, and nothing obliges a callback to answer from another goroutine); 'presented to every callback' therefore must not depend on another callback having returned. " +
 				"The verdict 'not presented' is taken at goroutine-count quiescence (idle count + callbacks parked by the harness), after a 3 s grace period that only saves work; watchdogs (15-20 s) make a case inconclusive",
@@ -126,6 +140,8 @@ func init() {
 			{Name: "reconnect", Cases: pick(48, 600), Run: c12Reconnect, Quiet: 90 * time.Second},
 			{Name: "removals", Cases: pick(16, 120), Run: c12Removals, Quiet: 90 * time.Second},
 			{Name: "blocking", Cases: pick(96, 1200), Run: c12Blocking, Quiet: 90 * time.Second},
+			{Name: "shapes", Cases: pick(80, 1000), Run: c12Shapes, Quiet: 90 * time.Second},
+			{Name: "latecb", Cases: pick(48, 600), Run: c12LateCB, Quiet: 90 * time.Second},
 			{Name: "mixed-race", Race: true, Cases: pick(30, 400), Run: c12Mixed, Quiet: 120 * time.Second},
 			{Name: "gate-race", Race: true, Cases: pick(20, 300), Run: c12Gate, Quiet: 120 * time.Second},
 			{Name: "expiry-race", Race: true, Cases: pick(10, 60), Run: c12Expiry, Quiet: 120 * time.Second},
@@ -148,8 +164,13 @@ type c12Write struct {
 	racers                []int // callbacks whose verdict goes through the gate (gateT, duel)
 	mc                    model.MsgCounterType
 	sent                  bool
-	sentAt                time.Time // workload pacing only, never read by an oracle
-	returned              []bool    // verdict of callback i has been delivered and the call returned (cw.mu)
+	sentAt                time.Time                               // workload pacing only, never read by an oracle
+	sentBefore            time.Time                               // class timely: taken before the write is handed to the stack: no timer for it is armed before this moment
+	lastRet               time.Time                               // class timely: taken after the latest verdict call returned (cw.mu)
+	denials               []model.ErrorType                       // the errors handed to ApproveOrDenyWrite for this write (cw.mu)
+	mkCmd                 func(elem int, val int64) model.CmdType // part shapes: the write is not the ordinary partial write of one element
+	frac                  int                                     // class timely: the verdicts are delivered after about frac per cent of the timeout (pacing)
+	returned              []bool                                  // verdict of callback i has been delivered and the call returned (cw.mu)
 	errSeenBeforeRelease  bool
 }
 
@@ -162,7 +183,11 @@ func (w *c12Write) vec() string {
 }
 
 func (w *c12Write) shape() string {
-	return fmt.Sprintf("p%df%d/%s/%s/ack=%v/r%v", w.peer, w.feat, w.class, w.vec(), w.ack, w.racers)
+	cl := w.class
+	if cl == "timely" {
+		cl = fmt.Sprintf("timely@%d%%", w.frac)
+	}
+	return fmt.Sprintf("p%df%d/%s/%s/ack=%v/r%v", w.peer, w.feat, cl, w.vec(), w.ack, w.racers)
 }
 
 func (w *c12Write) unanimous() bool {
@@ -183,6 +208,7 @@ type c12Plan struct {
 	k           int
 	layout      int // 0: one feature, writer peer0, peer1 unbound; 1: two features, peer i writes feature i; 2: one feature, peer0 then (re-bound) peer1
 	sameMC      bool
+	ctr         int         // boundary message counters: 0 none (5000.. / 100001..), 1: max uint64, 0, 1, ..; 2: 0, 1, 2, ..; 3: 1, 2, 3, .. (sameMC: both peers alike, else peer1 uses the next mode)
 	writes      []*c12Write // phase 0
 	gated       []*c12Write // phase B (gateT / duel)
 	order       []c12Del    // explicit sequential order of all early deliveries (enumerated parts); nil = shuffled
@@ -191,6 +217,9 @@ type c12Plan struct {
 	distractor  bool        // an unbound peer sends a write with the counter of a pending write
 	counterless bool        // finish with a write datagram without msgCounter
 	slow        bool        // the peers' connection writers can be blocked (part expiry)
+	foreignRm   bool        // layout 0: while the writes are pending the OTHER peer (no write of its own) announces the removal of its entity [1] - the same entity number the writes come from
+	concSend    bool        // layouts 0 and 1: after the first write of each peer the peers' remaining writes are sent by one goroutine per peer WHILE verdicts of the first writes are delivered
+	fixed       bool        // the features carry a ninth element that is NOT changeable (part shapes)
 	label       string
 }
 
@@ -206,7 +235,7 @@ func (p *c12Plan) shape() string {
 	for _, d := range p.order {
 		ord += fmt.Sprintf("%d.%d,", d.w.idx, d.cb)
 	}
-	return fmt.Sprintf("%s k=%d L%d same=%v g=%d split=%d dis=%v nc=%v [%s] ord=%s", p.label, p.k, p.layout, p.sameMC, p.gor, p.splitA/250, p.distractor, p.counterless, strings.Join(ws, " "), ord)
+	return fmt.Sprintf("%s k=%d L%d same=%v ctr=%d g=%d split=%d dis=%v nc=%v cs=%v rm=%v [%s] ord=%s", p.label, p.k, p.layout, p.sameMC, p.ctr, p.gor, p.splitA/250, p.distractor, p.counterless, p.concSend, p.foreignRm, strings.Join(ws, " "), ord)
 }
 
 func c12Classify(w *c12Write) {
@@ -250,6 +279,7 @@ type c12World struct {
 	skip    bool // an inconclusive wait happened: do not judge the rest
 	bw      []*xBlockWriter
 	noClose bool
+	ctrSet  map[int]bool                    // peers whose message counter has been put where the plan wants it
 	present func(f, cb int, m *api.Message) // part blocking: what a callback does after its invocation was recorded (it may block)
 }
 
@@ -294,6 +324,10 @@ func newC12World(c *rig.Ctx, pl *c12Plan) *c12World {
 			items = append(items, model.LoadControlLimitDataType{LimitId: util.Ptr(model.LoadControlLimitIdType(i)), IsLimitChangeable: util.Ptr(true),
 				Value: &model.ScaledNumberType{Number: util.Ptr(model.NumberType(i))}})
 			exp[i] = int64(i)
+		}
+		if pl.fixed {
+			items = append(items, model.LoadControlLimitDataType{LimitId: util.Ptr(model.LoadControlLimitIdType(c12Elems + 1)), IsLimitChangeable: util.Ptr(false),
+				Value: &model.ScaledNumberType{Number: util.Ptr(model.NumberType(c12Elems + 1))}})
 		}
 		fl.SetData(c12Fn, &model.LoadControlLimitListDataType{LoadControlLimitData: items})
 		for cb := 0; cb < pl.k; cb++ {
@@ -352,6 +386,33 @@ func (cw *c12World) record(f, cb int, m *api.Message) bool {
 	return true
 }
 
+// setCtr puts the message counter of a peer where the plan wants its writes to be numbered from: the statement
+// speaks of "each authorised incoming write", whatever legal counter value it carries (0, 1, the largest uint64, the
+// wrap-around from the largest value to 0, and the same values on both connections).
+func (cw *c12World) setCtr(peer int) {
+	pl := cw.pl
+	m := pl.ctr
+	if cw.ctrSet == nil {
+		cw.ctrSet = map[int]bool{}
+	}
+	if cw.ctrSet[peer] {
+		return
+	}
+	cw.ctrSet[peer] = true
+	switch {
+	case m == 0 && pl.sameMC:
+		cw.w.Peers[peer].Ctr = 5000
+		return
+	case m == 0:
+		return
+	}
+	if !pl.sameMC && peer == 1 {
+		m = m%3 + 1
+	}
+	cw.w.Peers[peer].Ctr = []uint64{0, math.MaxUint64 - 1, math.MaxUint64, 0}[m]
+	cw.c.Count(fmt.Sprintf("boundary_counters:mode%d", m), 1)
+}
+
 func (cw *c12World) clientAddr(p *rig.Peer) *model.FeatureAddressType {
 	return rig.FA(p.Addr, []uint{1}, 1)
 }
@@ -397,11 +458,17 @@ func (cw *c12World) send(w *c12Write) bool {
 		return false
 	}
 	p := cw.w.Peers[w.peer]
+	cw.setCtr(w.peer) // after the bind call: it must not shift the numbering
 	w.elem = cw.nextEl[w.feat]
 	cw.nextEl[w.feat]++
 	w.returned = make([]bool, cw.pl.k)
 	cw.feats[w.feat].SetWriteApprovalTimeout(w.timeout)
-	w.mc = p.Send(model.CmdClassifierTypeWrite, cw.clientAddr(p), cw.feats[w.feat].Address(), w.ack, nil, c12WriteCmd(w.elem, w.val))
+	cmd := c12WriteCmd(w.elem, w.val)
+	if w.mkCmd != nil {
+		cmd = w.mkCmd(w.elem, w.val)
+	}
+	w.sentBefore = time.Now()
+	w.mc = p.Send(model.CmdClassifierTypeWrite, cw.clientAddr(p), cw.feats[w.feat].Address(), w.ack, nil, cmd)
 	w.sent = true
 	w.sentAt = time.Now()
 	cw.known[w.peer][w.mc] = true
@@ -459,6 +526,16 @@ func (cw *c12World) msgFor(w *c12Write, cb int) *api.Message {
 	return ms[0]
 }
 
+// denial: the error a callback denies a write with: number (1..9) and description differ between callbacks and writes,
+// so that the error result can be compared with the denial it comes from.
+func (cw *c12World) denial(w *c12Write, cb int) model.ErrorType {
+	et := *model.NewErrorType(model.ErrorNumberType(1+(w.idx*3+cb)%9), fmt.Sprintf("denied by callback %d (write #%d)", cb, w.idx))
+	cw.mu.Lock()
+	w.denials = append(w.denials, et)
+	cw.mu.Unlock()
+	return et
+}
+
 // deliver hands the verdict of callback d.cb for write d.w to the stack.
 func (cw *c12World) deliver(d c12Del) {
 	m := cw.msgFor(d.w, d.cb)
@@ -468,12 +545,14 @@ func (cw *c12World) deliver(d c12Del) {
 	var et model.ErrorType
 	deny := d.w.v[d.cb] == c12D || d.w.v[d.cb] == c12LD
 	if deny {
-		et = *model.NewErrorTypeFromString("denied by the application")
+		et = cw.denial(d.w, d.cb)
 	}
 	cw.log("-> verdict write #%d cb%d deny=%v", d.w.idx, d.cb, deny)
 	cw.feats[d.w.feat].ApproveOrDenyWrite(m, et)
+	now := time.Now()
 	cw.mu.Lock()
 	d.w.returned[d.cb] = true
+	d.w.lastRet = now
 	cw.mu.Unlock()
 	cw.log("<- verdict write #%d cb%d returned", d.w.idx, d.cb)
 }
@@ -521,6 +600,10 @@ func (cw *c12World) judge(w *c12Write, final bool, where string) {
 	cw.mu.Lock()
 	cw.events += 3
 	nRet, denyRet := 0, false
+	// class timely ("approves it before the timeout"): a timer never fires early, and the timer of this write was armed
+	// after sentBefore was taken; if the last verdict call had returned before the timeout can have passed since then,
+	// every callback approved before the timeout. (A late return - a loaded machine - only makes the rule not apply.)
+	lastRet := w.lastRet
 	for cb, r := range w.returned {
 		if r {
 			nRet++
@@ -553,6 +636,10 @@ func (cw *c12World) judge(w *c12Write, final bool, where string) {
 		return
 	case o.applied && w.ack && o.succ != 1:
 		cw.fail(w, "applied-without-requested-success-result", where, o)
+		return
+	}
+	if w.class == "latecb" && o.applied && nRet < len(w.v) {
+		cw.fail(w, "applied-before-all-presented-callbacks-approved", where, o)
 		return
 	}
 	timerFar := w.class == "long" || w.class == "duel"
@@ -590,6 +677,32 @@ func (cw *c12World) judge(w *c12Write, final bool, where string) {
 		}
 		if o.errs != 1 || o.applied {
 			cw.fail(w, "not-exactly-one-error-result", where, o)
+		}
+	case "timely":
+		inTime := nRet == len(w.v) && lastRet.Sub(w.sentBefore) < w.timeout
+		switch {
+		case !w.unanimous():
+			if o.errs != 1 || o.applied {
+				cw.fail(w, "not-exactly-one-error-result", where, o)
+			}
+		case inTime:
+			cw.c.Count("timely:all-approvals-returned-before-the-timeout-can-have-passed", 1)
+			if !o.applied || o.errs != 0 {
+				cw.fail(w, "approved-before-the-timeout-but-not-applied", fmt.Sprintf("%s (timeout %v; the last approval call had returned %v after a moment BEFORE the write was handed to the stack)", where, w.timeout, lastRet.Sub(w.sentBefore)), o)
+			}
+		default:
+			cw.c.Count("timely:approvals-too-late-for-the-rule(either outcome)", 1)
+			if !((o.applied && o.errs == 0) || (!o.applied && o.errs == 1)) {
+				cw.fail(w, "not-exactly-one-outcome", where, o)
+			}
+		}
+	case "latecb":
+		if !w.unanimous() {
+			if o.errs != 1 || o.applied {
+				cw.fail(w, "not-exactly-one-error-result", where, o)
+			}
+		} else if !((o.applied && o.errs == 0) || (!o.applied && o.errs == 1)) {
+			cw.fail(w, "not-exactly-one-outcome", where, o)
 		}
 	case "natural", "expiry", "aimed":
 		// verdicts and a real 30 ms timer race without a hook: a denial always ends in exactly one error result,
@@ -707,20 +820,18 @@ func c12Run(c *rig.Ctx, pl *c12Plan) {
 	// ---- phase 0: all ordinary writes become pending (for layout 2: peer0's first, then the re-binding)
 	ws := append([]*c12Write(nil), pl.writes...)
 	sort.SliceStable(ws, func(i, j int) bool { return pl.layout == 2 && ws[i].peer < ws[j].peer })
-	ctrSet := map[int]bool{}
-	for _, w := range ws {
-		if pl.sameMC && !ctrSet[w.peer] {
-			// both peers number their writes identically (the bind call must not shift the numbering)
-			if !cw.bind(w.feat, w.peer) {
-				return
-			}
-			cw.w.Peers[w.peer].Ctr = 5000
-			ctrSet[w.peer] = true
+	if pl.concSend && pl.layout != 2 {
+		if !c12ConcurrentArrival(cw, ws) {
+			return
 		}
-		if !cw.send(w) {
+		ws = nil
+	}
+	for _, w := range ws {
+		if !cw.send(w) { // (puts the peer's message counter where the plan wants it before the peer's first write)
 			return
 		}
 	}
+	ws = append([]*c12Write(nil), pl.writes...)
 	if pl.distractor && pl.layout == 0 && len(ws) > 0 {
 		// an unbound peer writes with the message counter of a pending write: refused at once, must not touch anything
 		w0 := ws[0]
@@ -736,6 +847,19 @@ func c12Run(c *rig.Ctx, pl *c12Plan) {
 			}
 		}
 	}
+	if pl.foreignRm && pl.layout == 0 && len(ws) > 0 && cw.bound[0] == 0 {
+		// "independently of any other ... peer": the other peer, which has nothing pending, removes its entity [1]; the
+		// pending writes come from entity [1] of THEIR device and are none of its business
+		q := cw.w.Peers[1]
+		mc := q.NotifyDiscovery(true, q.Discovery(nil, nil, [][]uint{{1}}))
+		cw.known[1][mc] = true
+		cw.log("peer1 (nothing pending) announces the removal of its entity [1] (notify mc=%d)", mc)
+		if n := q.PanicCount(); n > 0 {
+			c.Violate("write/panic", "%s\n%s", q.Panics[n-1], strings.Join(cw.trace, "\n"))
+			return
+		}
+		c.Count("removal_of_the_other_peers_entity_while_writes_were_pending", 1)
+	}
 	for _, w := range cw.all() {
 		cw.judge(w, false, "after sending")
 	}
@@ -747,6 +871,12 @@ func c12Run(c *rig.Ctx, pl *c12Plan) {
 	} else {
 		for _, w := range pl.writes {
 			for cb, x := range w.v {
+				cw.mu.Lock()
+				done := w.returned[cb] // (delivered while other writes were arriving, pl.concSend)
+				cw.mu.Unlock()
+				if done {
+					continue
+				}
 				switch x {
 				case c12A, c12D:
 					early = append(early, c12Del{w, cb})
@@ -760,8 +890,11 @@ func c12Run(c *rig.Ctx, pl *c12Plan) {
 	}
 	// verdicts of long writes may be held back until after the short timers fired (phase C)
 	var phaseA, phaseC []c12Del
+	timely := map[*c12Write][]c12Del{}
 	for _, d := range early {
-		if d.w.class == "long" && pl.order == nil && r.Intn(1000) >= pl.splitA {
+		if d.w.class == "timely" {
+			timely[d.w] = append(timely[d.w], d)
+		} else if d.w.class == "long" && pl.order == nil && r.Intn(1000) >= pl.splitA {
 			phaseC = append(phaseC, d)
 		} else {
 			phaseA = append(phaseA, d)
@@ -778,6 +911,20 @@ func c12Run(c *rig.Ctx, pl *c12Plan) {
 	}
 	if !cw.run(phaseA, pl.gor, "phase A") {
 		return
+	}
+
+	// ---- phase T: the verdicts of a timely write are delivered when a drawn share of its timeout has passed (pacing);
+	// whether that was "before the timeout" is decided in judge from the monotonic clock around the write's life
+	for _, w := range pl.writes {
+		if w.class != "timely" {
+			continue
+		}
+		if d := time.Until(w.sentBefore.Add(w.timeout * time.Duration(w.frac) / 100)); d > 0 {
+			time.Sleep(d)
+		}
+		if !cw.run(timely[w], 1, "phase T") {
+			return
+		}
 	}
 
 	// ---- phase B: verdicts parked inside ApproveOrDenyWrite
@@ -810,7 +957,7 @@ func c12Run(c *rig.Ctx, pl *c12Plan) {
 		cw.log("timeout/error result of write #%d is on the tap", w.idx)
 	}
 	for _, w := range pl.writes {
-		if w.class == "natural" {
+		if w.class == "natural" || w.class == "timely" {
 			rig.WaitFor(20*time.Second, func() bool { o := cw.observe(w); return o.applied || o.errs > 0 })
 		}
 	}
@@ -830,6 +977,11 @@ func c12Run(c *rig.Ctx, pl *c12Plan) {
 				time.Sleep(d)
 			}
 		}
+		if w.class == "timely" {
+			if d := time.Until(w.sentAt.Add(w.timeout + 25*time.Millisecond)); d > 0 {
+				time.Sleep(d)
+			}
+		}
 	}
 	if !rig.WaitQuiet(cw.baseline, 20*time.Second) {
 		c.Inconclusive("process did not become quiet")
@@ -842,6 +994,101 @@ func c12Run(c *rig.Ctx, pl *c12Plan) {
 	if pl.counterless && !c.Failed() {
 		c12Counterless(cw)
 	}
+}
+
+// c12ConcurrentArrival: "independently of any other write pending at the same time": writes ARRIVE while verdicts for
+// other pending writes are being given (and while short timers of those fire). The first write of each peer is sent
+// as usual; then one goroutine per peer sends that peer's remaining writes while 1-2 other goroutines deliver the
+// early verdicts (approve / deny) of the first writes. Judged after all of them have been joined.
+func c12ConcurrentArrival(cw *c12World, ws []*c12Write) bool {
+	var seeds []*c12Write
+	rest := map[int][]*c12Write{}
+	seen := map[int]bool{}
+	for _, w := range ws {
+		if !seen[w.peer] {
+			seen[w.peer] = true
+			seeds = append(seeds, w)
+			if !cw.send(w) {
+				return false
+			}
+		} else {
+			rest[w.peer] = append(rest[w.peer], w)
+		}
+	}
+	var ds []c12Del
+	for _, w := range seeds {
+		for cb, x := range w.v {
+			if x == c12A || x == c12D {
+				ds = append(ds, c12Del{w, cb})
+			}
+		}
+	}
+	cw.c.Rand.Shuffle(len(ds), func(i, j int) { ds[i], ds[j] = ds[j], ds[i] })
+	var wg sync.WaitGroup
+	var bad atomic.Int32
+	nArr := 0
+	for _, list := range rest {
+		list := list
+		nArr += len(list)
+		wg.Add(1)
+		go func() {
+			defer wg.Done()
+			ok, pan := rig.Guard(60*time.Second, func() {
+				for _, w := range list {
+					if !cw.send(w) {
+						bad.Store(1)
+						return
+					}
+				}
+			})
+			if pan != "" {
+				cw.c.Violate("write/panic", "handling a write while verdicts were being delivered panicked: %s", pan)
+				bad.Store(1)
+			} else if !ok {
+				cw.c.Inconclusive("handling a write did not return within 60s while verdicts were being delivered")
+				bad.Store(2)
+			}
+		}()
+	}
+	g := 1 + cw.c.Rand.Intn(2)
+	for i := 0; i < g; i++ {
+		var mine []c12Del
+		for j := i; j < len(ds); j += g {
+			mine = append(mine, ds[j])
+		}
+		wg.Add(1)
+		go func() {
+			defer wg.Done()
+			ok, pan := rig.Guard(60*time.Second, func() {
+				for _, d := range mine {
+					cw.deliver(d)
+					runtime.Gosched()
+				}
+			})
+			if pan != "" {
+				cw.c.Violate("verdict/panic", "ApproveOrDenyWrite panicked while other writes were arriving: %s", pan)
+				bad.Store(1)
+			} else if !ok {
+				cw.c.Inconclusive("ApproveOrDenyWrite did not return within 60s while other writes were arriving")
+				bad.Store(2)
+			}
+		}()
+	}
+	wg.Wait()
+	switch bad.Load() {
+	case 1:
+		cw.skip = true
+		return false
+	case 2:
+		cw.skip, cw.noClose = true, true
+		return false
+	}
+	cw.c.Count("concurrent_arrival:writes_arriving_while_verdicts_were_delivered", int64(nArr))
+	cw.c.Count("concurrent_arrival:verdicts_delivered_meanwhile", int64(len(ds)))
+	for _, w := range cw.all() {
+		cw.judge(w, false, "after joining the sending and the delivering goroutines")
+	}
+	return true
 }
 
 // finalAudit: per write the final outcome; per callback exactly one invocation; per tap only attributable results;
@@ -916,6 +1163,33 @@ func (cw *c12World) finalAudit() {
 	}
 	if len(strange) > 0 {
 		c.Violate("callback/incomplete-message", "%s", strings.Join(strange, "\n"))
+	}
+	// results compared, not only counted: they come from the server feature the write addressed, go to the client feature
+	// that wrote, and - where only a denial can have ended the write (timeout 1 h) - carry the error of one of its denials
+	for _, w := range cw.all() {
+		if !w.sent {
+			continue
+		}
+		for _, d := range rig.Classify(cw.w.Peers[w.peer].Tap.Peek(), w.mc).All {
+			c12CheckResultAddresses(cw, w.peer, w.feat, d)
+			if len(d.Payload.Cmd) != 1 || d.Payload.Cmd[0].ResultData == nil || d.Payload.Cmd[0].ResultData.ErrorNumber == nil || *d.Payload.Cmd[0].ResultData.ErrorNumber == 0 {
+				continue
+			}
+			cw.mu.Lock()
+			dens := append([]model.ErrorType(nil), w.denials...)
+			cw.mu.Unlock()
+			if (w.class == "long" || w.class == "duel") && len(dens) > 0 {
+				res, match := d.Payload.Cmd[0].ResultData, false
+				for _, e := range dens {
+					if e.ErrorNumber == *res.ErrorNumber && res.Description != nil && e.Description != nil && *res.Description == *e.Description {
+						match = true
+					}
+				}
+				if !match {
+					c.Violate("result/error-is-not-the-one-of-a-denial", "write #%d (timeout 1 h) was denied with %s; its error result carries number %d, description %v: %s", w.idx, rig.JS(dens), *res.ErrorNumber, rig.JS(res.Description), rig.JS(d))
+				}
+			}
+		}
 	}
 	// taps
 	for pi, p := range cw.w.Peers {
@@ -1069,8 +1343,13 @@ func c12PhaseB(cw *c12World) bool {
 	return true
 }
 
-// c12Counterless: a write datagram without msgCounter. It cannot be answered by reference, so the only
-// assertions are: answering the callback neither panics nor wedges the feature for the next write.
+// c12Counterless: a write datagram without msgCounter. It cannot be answered by reference, and the statement does
+// not say whether it counts as a write at all, so only this is judged: it gets at most one outcome (at most one
+// datagram that answers none of the peer's numbered messages; not "applied" together with an error result), answering
+// the callbacks neither panics nor wedges the feature for the next write, and the process survives the approval
+// timeout that was in force when it came in (a timer armed for it fires on a goroutine of its own: a panic there kills
+// the worker process and is attributed to this case by the parent as crash@<frame>). The verdicts of the callbacks
+// are delivered before that timeout, after it, or not at all.
 func c12Counterless(cw *c12World) {
 	c := cw.c
 	f := 0
@@ -1085,27 +1364,70 @@ func c12Counterless(cw *c12World) {
 			CmdClassifier: &cl, AckRequest: util.Ptr(true)},
 		Payload: model.PayloadType{Cmd: []model.CmdType{c12WriteCmd(c12Elems-1, 888888)}}}}
 	b, _ := json.Marshal(dg)
-	cw.feats[f].SetWriteApprovalTimeout(time.Hour)
-	cw.log("peer%d sends a write without msgCounter", pi)
+	T := c12ShortTimeout(c)
+	when := c.Rand.Intn(3) // verdicts: 0 before the timeout, 1 after it, 2 never
+	cw.feats[f].SetWriteApprovalTimeout(T)
+	before := len(p.Tap.Peek())
+	cw.log("peer%d sends a write without msgCounter (approval timeout %v, verdicts %s)", pi, T, []string{"at once", "after the timeout", "never"}[when])
+	sentAt := time.Now()
 	p.Raw(b)
+	if n := p.PanicCount(); n > 0 {
+		c.Violate("counterless-write/panic", "%s\n%s", p.Panics[n-1], strings.Join(cw.trace, "\n"))
+		return
+	}
 	rig.WaitQuiet(cw.baseline, 5*time.Second)
 	cw.mu.Lock()
 	ms := append([]*api.Message(nil), cw.noCtrM...)
 	cw.mu.Unlock()
 	c.Count("counterless:callback-invocations", int64(len(ms)))
-	for _, m := range ms {
-		ok, pan := rig.Guard(20*time.Second, func() { cw.feats[f].ApproveOrDenyWrite(m, model.ErrorType{}) })
-		if pan != "" {
-			c.Violate("counterless-write/verdict-panics", "ApproveOrDenyWrite for a write without msgCounter panicked: %s\n%s", pan, strings.Join(cw.trace, "\n"))
-			cw.noClose = true
-			return
+	verdicts := func() bool {
+		for _, m := range ms {
+			ok, pan := rig.Guard(20*time.Second, func() { cw.feats[f].ApproveOrDenyWrite(m, model.ErrorType{}) })
+			if pan != "" {
+				c.Violate("counterless-write/verdict-panics", "ApproveOrDenyWrite for a write without msgCounter panicked: %s\n%s", pan, strings.Join(cw.trace, "\n"))
+				cw.noClose = true
+				return false
+			}
+			if !ok {
+				c.Inconclusive("ApproveOrDenyWrite for a counterless write did not return")
+				cw.noClose = true
+				return false
+			}
 		}
-		if !ok {
-			c.Inconclusive("ApproveOrDenyWrite for a counterless write did not return")
-			cw.noClose = true
-			return
+		return true
+	}
+	if when == 0 && !verdicts() {
+		return
+	}
+	// the approval timeout passes (pacing only: the process either survives it or the parent sees the crash)
+	if d := time.Until(sentAt.Add(3*T + 20*time.Millisecond)); d > 0 {
+		time.Sleep(d)
+	}
+	if when == 1 && !verdicts() {
+		return
+	}
+	rig.WaitQuiet(cw.baseline, 5*time.Second)
+	c.Count("counterless:survived-the-approval-timeout", 1)
+	var answers, errAnswers int
+	for _, d := range p.Tap.Peek()[before:] {
+		if ref := d.Header.MsgCounterReference; ref != nil && cw.known[pi][*ref] {
+			continue
+		}
+		answers++
+		if len(d.Payload.Cmd) == 1 && d.Payload.Cmd[0].ResultData != nil && d.Payload.Cmd[0].ResultData.ErrorNumber != nil && *d.Payload.Cmd[0].ResultData.ErrorNumber != 0 {
+			errAnswers++
 		}
 	}
+	v, _ := cw.value(f, c12Elems-1)
+	c.Count(fmt.Sprintf("counterless:answers=%d,applied=%v", answers, v == 888888), 1)
+	if answers > 1 || (v == 888888 && errAnswers > 0) {
+		c.Violate("counterless-write/more-than-one-outcome", "a write without msgCounter got %d datagrams that answer none of the numbered messages (%d error results), applied=%v\n%s", answers, errAnswers, v == 888888, strings.Join(cw.trace, "\n"))
+		return
+	}
+	if v == 888888 {
+		cw.expect[f][c12Elems-1] = 888888
+	}
+	cw.feats[f].SetWriteApprovalTimeout(time.Hour)
 	// the feature still serves the next write
 	w := &c12Write{idx: 99, peer: pi, feat: f, val: 777777, ack: true, v: make([]int, cw.pl.k), class: "long", timeout: time.Hour}
 	sent := false
@@ -1200,12 +1522,13 @@ func c12Vectors(c *rig.Ctx) {
 			}
 		}
 	}
-	pl := &c12Plan{k: len(v), gor: 1 + r.Intn(2), splitA: 1000, label: "vectors", sameMC: r.Intn(2) == 0, counterless: r.Intn(4) == 0}
+	pl := &c12Plan{k: len(v), gor: 1 + r.Intn(2), splitA: 1000, label: "vectors", sameMC: r.Intn(2) == 0, ctr: r.Intn(4), counterless: r.Intn(4) == 0}
 	switch neighbour {
 	case 0: // alone (plus an unbound peer using the same counter)
 		pl.layout, pl.distractor = 0, true
 	case 1: // a second write of the same peer, unanimously approved, pending at the same time
 		pl.layout = 0
+		pl.foreignRm = r.Intn(2) == 0
 	case 2: // a second write of the other peer on the same feature
 		pl.layout = 2
 	}
@@ -1249,7 +1572,7 @@ func c12Interleave(c *rig.Ctx) {
 		i = int((int64(c.Index)*131 + c.Seed*17) % int64(total))
 	}
 	perm, bits, two := c12Perms[i%24], (i/24)%16, i/(24*16) == 1
-	pl := &c12Plan{k: 2, gor: 1, splitA: 1000, label: "interleave", sameMC: true}
+	pl := &c12Plan{k: 2, gor: 1, splitA: 1000, label: "interleave", sameMC: true, ctr: c.Index % 4}
 	if two {
 		pl.layout = 2
 	}
@@ -1287,8 +1610,14 @@ func c12DrawVector(c *rig.Ctx, k int) []int {
 func c12Mixed(c *rig.Ctx) {
 	r := c.Rand
 	pl := &c12Plan{k: 1 + r.Intn(3), layout: r.Intn(3), sameMC: r.Intn(2) == 0, gor: 1 + r.Intn(3), splitA: 250 * (1 + r.Intn(4)), label: "mixed",
-		distractor: r.Intn(3) == 0, counterless: r.Intn(4) == 0}
+		distractor: r.Intn(3) == 0, counterless: r.Intn(4) == 0, ctr: r.Intn(4)}
+	pl.concSend = pl.layout != 2 && r.Intn(2) == 0
+	pl.foreignRm = pl.layout == 0 && r.Intn(2) == 0
 	n := 1 + r.Intn(4)
+	if pl.concSend {
+		n = 3 + r.Intn(3)
+	}
+	timelyDrawn := false
 	for i := 0; i < n; i++ {
 		peer, feat := c12PeerFeat(pl.layout, i)
 		if pl.layout != 0 && r.Intn(3) == 0 {
@@ -1299,6 +1628,10 @@ func c12Mixed(c *rig.Ctx) {
 			w.timeout = c12ShortTimeout(c)
 		} else if r.Intn(6) == 0 {
 			w.class, w.timeout = "natural", 30*time.Millisecond
+		} else if !timelyDrawn && r.Intn(4) == 0 {
+			// "before the timeout": all verdicts in (no silent/late one: class long) when 0-90% of a 300-500 ms timeout have passed
+			timelyDrawn = true
+			w.class, w.timeout, w.frac = "timely", time.Duration(300+r.Intn(201))*time.Millisecond, []int{0, 30, 55, 75, 90}[r.Intn(5)]
 		}
 		pl.writes = append(pl.writes, w)
 	}
@@ -1313,7 +1646,7 @@ func c12Mixed(c *rig.Ctx) {
 // part "gate": 0-2 background writes + 1-2 writes whose deciding verdicts are parked in the window
 func c12Gate(c *rig.Ctx) {
 	r := c.Rand
-	pl := &c12Plan{k: 1 + r.Intn(3), layout: r.Intn(3), sameMC: r.Intn(2) == 0, gor: 1 + r.Intn(2), splitA: 500, label: "gate"}
+	pl := &c12Plan{k: 1 + r.Intn(3), layout: r.Intn(3), sameMC: r.Intn(2) == 0, gor: 1 + r.Intn(2), splitA: 500, label: "gate", ctr: r.Intn(4)}
 	nb := r.Intn(3)
 	for i := 0; i < nb; i++ {
 		peer, feat := c12PeerFeat(pl.layout, i)
@@ -1383,7 +1716,7 @@ func c12In(xs []int, x int) bool {
 func c12Expiry(c *rig.Ctx) {
 	r := c.Rand
 	k := 1 + r.Intn(3)
-	pl := &c12Plan{k: k, layout: 0, gor: 1, splitA: 1000, label: "expiry", slow: true, sameMC: r.Intn(2) == 0}
+	pl := &c12Plan{k: k, layout: 0, gor: 1, splitA: 1000, label: "expiry", slow: true, sameMC: r.Intn(2) == 0, ctr: r.Intn(4)}
 	// W1: the target. Its last verdict (approve, or deny one time in three) is the parked one.
 	v1 := make([]int, k)
 	if r.Intn(3) == 0 {
@@ -1434,11 +1767,11 @@ func c12Expiry(c *rig.Ctx) {
 			c.Witness(map[string]any{"plan": pl.shape(), "trace": cw.trace})
 		}
 	}()
-	if pl.sameMC {
+	if pl.sameMC || pl.ctr != 0 {
 		if !cw.bind(0, 0) {
 			return
 		}
-		cw.w.Peers[0].Ctr = 5000
+		cw.setCtr(0)
 	}
 	if w2 != nil && !cw.send(w2) {
 		return
@@ -2244,7 +2577,7 @@ func (b *c12Blk) verdict(w *c12Write, cb int, m *api.Message) {
 	var et model.ErrorType
 	deny := w.v[cb] == c12D || w.v[cb] == c12LD
 	if deny {
-		et = *model.NewErrorTypeFromString("denied by the application")
+		et = b.cw.denial(w, cb)
 	}
 	b.cw.log("-> verdict write #%d cb%d deny=%v (from inside the callback)", w.idx, cb, deny)
 	b.cw.feats[w.feat].ApproveOrDenyWrite(m, et)
@@ -2306,7 +2639,7 @@ func (b *c12Blk) onPresent(f, cb int, m *api.Message) {
 func c12Blocking(c *rig.Ctx) {
 	r := c.Rand
 	k := 2 + r.Intn(2)
-	pl := &c12Plan{k: k, layout: 0, gor: 1, splitA: 1000, label: "blocking", sameMC: r.Intn(2) == 0}
+	pl := &c12Plan{k: k, layout: 0, gor: 1, splitA: 1000, label: "blocking", sameMC: r.Intn(2) == 0, ctr: r.Intn(4)}
 	info := map[*c12Write]*c12BWrite{}
 	var shapes []string
 	n := 1 + r.Intn(3)
@@ -2402,9 +2735,7 @@ func c12Blocking(c *rig.Ctx) {
 	if !cw.bind(0, 0) {
 		return
 	}
-	if pl.sameMC {
-		cw.w.Peers[0].Ctr = 5000
-	}
+	cw.setCtr(0)
 	p := cw.w.Peers[0]
 	for _, w := range pl.writes {
 		in := info[w]
@@ -2503,5 +2834,497 @@ func c12Blocking(c *rig.Ctx) {
 		return
 	}
 	cw.finalAudit()
+	decided = true
+}
+
+// ---------------------------------------------------------------------------
+// part "shapes": approved writes the data layer refuses, full and delete-selector writes
+
+const (
+	c12ShNormal  = "partial-existing-changeable"
+	c12ShUnknown = "partial-unknown-identifier"
+	c12ShFixed   = "partial-unchangeable-element"
+	c12ShFull    = "full-write"
+	c12ShDelete  = "delete-selector"
+)
+
+// snapshot renders the whole list of a feature: identifier -> value/changeable
+func (cw *c12World) snapshot(f int) map[int]string {
+	out := map[int]string{}
+	d, _ := cw.feats[f].DataCopy(c12Fn).(*model.LoadControlLimitListDataType)
+	if d == nil {
+		return out
+	}
+	for i, it := range d.LoadControlLimitData {
+		id := -1 - i
+		if it.LimitId != nil {
+			id = int(*it.LimitId)
+		}
+		v, ch := "nil", "nil"
+		if it.Value != nil && it.Value.Number != nil {
+			v = fmt.Sprint(*it.Value.Number)
+		}
+		if it.IsLimitChangeable != nil {
+			ch = fmt.Sprint(*it.IsLimitChangeable)
+		}
+		out[id] += v + "/" + ch + ";"
+	}
+	return out
+}
+
+func c12SnapEq(a, b map[int]string) bool {
+	if len(a) != len(b) {
+		return false
+	}
+	for k, v := range a {
+		if b[k] != v {
+			return false
+		}
+	}
+	return true
+}
+
+func c12Shapes(c *rig.Ctx) {
+	r := c.Rand
+	k := 1 + r.Intn(3)
+	pl := &c12Plan{k: k, layout: 0, gor: 1, splitA: 1000, label: "shapes", fixed: true, ctr: r.Intn(4)}
+	n := 2 + r.Intn(3)
+	shapeOf := map[*c12Write]string{}
+	var last *c12Write
+	for i := 0; i < n; i++ {
+		v := make([]int, k)
+		if r.Intn(3) == 0 {
+			v[r.Intn(k)] = c12D
+		}
+		w := c12NewWrite(pl, 0, 0, v, r.Intn(2) == 0, c12Val(c, i))
+		sh := []string{c12ShNormal, c12ShNormal, c12ShUnknown, c12ShUnknown, c12ShFixed, c12ShFixed, c12ShFull, c12ShDelete}[r.Intn(8)]
+		if (sh == c12ShFull || sh == c12ShDelete) && last != nil {
+			sh = c12ShUnknown
+		}
+		shapeOf[w] = sh
+		idx := i
+		switch sh {
+		case c12ShUnknown:
+			w.mkCmd = func(elem int, val int64) model.CmdType { return c12WriteCmd(50+idx, val) }
+		case c12ShFixed:
+			w.mkCmd = func(elem int, val int64) model.CmdType { return c12WriteCmd(c12Elems+1, val) }
+		case c12ShFull:
+			last = w
+			w.mkCmd = func(elem int, val int64) model.CmdType {
+				var items []model.LoadControlLimitDataType
+				for id := 1; id <= c12Elems+1; id++ {
+					x := int64(id)
+					if id == elem {
+						x = val
+					}
+					items = append(items, model.LoadControlLimitDataType{LimitId: util.Ptr(model.LoadControlLimitIdType(id)), Value: &model.ScaledNumberType{Number: util.Ptr(model.NumberType(x))}})
+				}
+				return model.CmdType{LoadControlLimitListData: &model.LoadControlLimitListDataType{LoadControlLimitData: items}}
+			}
+		case c12ShDelete:
+			last = w
+			w.mkCmd = func(elem int, val int64) model.CmdType {
+				return model.CmdType{Function: util.Ptr(c12Fn),
+					Filter: []model.FilterType{{CmdControl: &model.CmdControlType{Delete: &model.ElementTagType{}},
+						LoadControlLimitListDataSelectors: &model.LoadControlLimitListDataSelectorsType{LimitId: util.Ptr(model.LoadControlLimitIdType(elem))}}},
+					LoadControlLimitListData: &model.LoadControlLimitListDataType{}}
+			}
+		}
+		pl.writes = append(pl.writes, w)
+	}
+	var names []string
+	for _, w := range pl.writes {
+		names = append(names, shapeOf[w])
+	}
+	pl.label = "shapes[" + strings.Join(names, ",") + "]"
+
+	cw := newC12World(c, pl)
+	defer func() {
+		cw.hooks.ReleaseAll()
+		if cw.noClose {
+			spine.SetVerifHook(nil)
+			return
+		}
+		cw.w.Close()
+	}()
+	c.Shape(pl.shape())
+	decidedAll := false
+	defer func() {
+		cw.mu.Lock()
+		ev := cw.events
+		tr := append([]string(nil), cw.trace...)
+		cw.mu.Unlock()
+		c.Events(ev)
+		c.NonTrivial(decidedAll && !cw.skip)
+		if len(tr) > 60 {
+			tr = tr[:60]
+		}
+		c.Sample(map[string]any{"plan": pl.shape(), "trace": tr})
+		if c.Failed() {
+			c.Witness(map[string]any{"plan": pl.shape(), "trace": cw.trace})
+		}
+	}()
+	for _, w := range pl.writes {
+		if !cw.send(w) {
+			return
+		}
+		cw.log("  (write #%d has the shape %s)", w.idx, shapeOf[w])
+	}
+	// nothing may have happened yet
+	nEvents := 0
+	countEvents := func() int {
+		for _, e := range cw.w.Core.Take() {
+			if e.P.EventType == api.EventTypeDataChange && e.P.CmdClassifier != nil && *e.P.CmdClassifier == model.CmdClassifierTypeWrite {
+				nEvents++
+			}
+		}
+		return nEvents
+	}
+	type state struct {
+		snap   map[int]string
+		res    [][2]int // per write: success results, error results
+		events int
+		stray  int
+	}
+	p := cw.w.Peers[0]
+	take := func() state {
+		st := state{snap: cw.snapshot(0), events: countEvents()}
+		outs := p.Tap.Peek()
+		for _, w := range pl.writes {
+			x := rig.Classify(outs, w.mc)
+			st.res = append(st.res, [2]int{x.Success, x.Errors})
+		}
+		for _, d := range outs { // everything the writer receives is a result for one of its numbered messages
+			if ref := d.Header.MsgCounterReference; ref == nil || !cw.known[0][*ref] || d.Header.CmdClassifier == nil || *d.Header.CmdClassifier != model.CmdClassifierTypeResult {
+				st.stray++
+			}
+		}
+		return st
+	}
+	var ds, tail []c12Del
+	for _, w := range pl.writes {
+		for cb := range w.v {
+			if w == last {
+				tail = append(tail, c12Del{w, cb})
+			} else {
+				ds = append(ds, c12Del{w, cb})
+			}
+		}
+	}
+	r.Shuffle(len(ds), func(i, j int) { ds[i], ds[j] = ds[j], ds[i] })
+	r.Shuffle(len(tail), func(i, j int) { tail[i], tail[j] = tail[j], tail[i] })
+	ds = append(ds, tail...)
+	approvals := map[*c12Write]int{}
+	decided := map[*c12Write]bool{}
+	before := take()
+	if before.stray > 0 || before.events > 0 {
+		c.Violate("shapes/outcome-before-any-verdict", "results or data change events before any verdict was given: %+v\n%s", before, strings.Join(cw.trace, "\n"))
+		return
+	}
+	for _, d := range ds {
+		w, sh := d.w, shapeOf[d.w]
+		ok, pan := rig.Guard(30*time.Second, func() { cw.deliver(d) })
+		if pan != "" {
+			c.Violate("verdict/panic", "ApproveOrDenyWrite panicked: %s\n%s", pan, strings.Join(cw.trace, "\n"))
+			cw.noClose = true
+			return
+		}
+		if !ok {
+			c.Inconclusive("ApproveOrDenyWrite did not return within 30s (shapes)")
+			cw.skip, cw.noClose = true, true
+			return
+		}
+		after := take()
+		cw.mu.Lock()
+		cw.events += 3
+		cw.mu.Unlock()
+		bad := func(dev, format string, a ...any) {
+			c.Violate("shapes/"+sh+"/"+dev, "write #%d (%s, mc=%d k=%d verdicts=%s ack=%v), verdict of callback %d: %s\nbefore the call: results per write (success, error) %v, %d data change events, list %v\nafter the call:  results per write %v, %d data change events, list %v\nplan: %s\ntrace:\n%s",
+				w.idx, sh, w.mc, k, w.vec(), w.ack, d.cb, fmt.Sprintf(format, a...), before.res, before.events, before.snap, after.res, after.events, after.snap, pl.shape(), strings.Join(cw.trace, "\n"))
+		}
+		othersSame := true
+		for i, x := range pl.writes {
+			if x != w && after.res[i] != before.res[i] {
+				othersSame = false
+			}
+		}
+		dSucc, dErr := after.res[w.idx][0]-before.res[w.idx][0], after.res[w.idx][1]-before.res[w.idx][1]
+		dEv := after.events - before.events
+		same := c12SnapEq(before.snap, after.snap)
+		ackN := 0
+		if w.ack {
+			ackN = 1
+		}
+		deny := w.v[d.cb] == c12D
+		switch {
+		case after.stray > 0:
+			bad("unattributable-datagram", "the writer received a datagram that is not a result for one of its writes")
+		case !othersSame:
+			bad("results-of-another-write-changed", "the results of another pending write changed")
+		case decided[w]:
+			if dSucc != 0 || dErr != 0 || dEv != 0 || !same {
+				bad("changes-after-the-outcome", "the write had its outcome already, this verdict must not change anything")
+			}
+		case deny:
+			decided[w] = true
+			c.Count("shapes:denied:"+sh, 1)
+			if dErr != 1 || dSucc != 0 || dEv != 0 || !same {
+				bad("denial-without-exactly-one-error-result-and-unchanged-data", "a denial: expected exactly one error result, unchanged data, no data change event")
+			}
+		default:
+			approvals[w]++
+			if approvals[w] < k {
+				if dSucc != 0 || dErr != 0 || dEv != 0 || !same {
+					bad("outcome-before-all-approved", "%d of %d callbacks have approved (timeout 1 h): nothing may happen yet", approvals[w], k)
+				}
+				break
+			}
+			decided[w] = true
+			c.Count("shapes:approved:"+sh, 1)
+			switch sh {
+			case c12ShNormal:
+				want := map[int]string{}
+				for id, v := range before.snap {
+					want[id] = v
+				}
+				want[w.elem] = fmt.Sprintf("%d/true;", w.val)
+				if dErr != 0 || dSucc != ackN || dEv != 1 || !c12SnapEq(want, after.snap) {
+					bad("unanimous-approval-not-applied", "all callbacks approved: expected element %d := %d, one data change event, %d success result(s), no error result", w.elem, w.val, ackN)
+				}
+			case c12ShUnknown, c12ShFixed:
+				if dErr != 1 || dSucc != 0 {
+					bad("refused-write-without-exactly-one-error-result", "all callbacks approved a write the data layer refuses: expected exactly one error result and no success result")
+				} else if !same || dEv != 0 {
+					bad("refused-write-changed-data", "all callbacks approved a write the data layer refuses (it got its error result): expected unchanged data and no data change event")
+				}
+			default: // full / delete: which of the two outcomes is C04's business; exactly one of them, consistently
+				refused := dErr == 1 && dSucc == 0 && dEv == 0 && same
+				applied := dErr == 0 && dSucc == ackN && dEv == 1
+				if refused {
+					c.Count("shapes:"+sh+":refused", 1)
+				} else if applied {
+					c.Count("shapes:"+sh+":applied", 1)
+				} else {
+					bad("not-exactly-one-outcome", "all callbacks approved: expected either (one error result, unchanged data, no event) or (no error result, one data change event, %d success result(s))", ackN)
+				}
+			}
+		}
+		if c.Failed() {
+			return
+		}
+		before = after
+	}
+	if !rig.WaitQuiet(cw.baseline, 20*time.Second) {
+		c.Inconclusive("process did not become quiet")
+		cw.skip = true
+		return
+	}
+	end := take()
+	if end.events != before.events || !c12SnapEq(end.snap, before.snap) || fmt.Sprint(end.res) != fmt.Sprint(before.res) || end.stray > 0 {
+		c.Violate("shapes/changes-after-the-last-verdict", "after the last verdict call: %+v, at quiescence: %+v\n%s", before, end, strings.Join(cw.trace, "\n"))
+	}
+	// invocations: once per callback and write
+	cw.mu.Lock()
+	for _, w := range pl.writes {
+		for cb := 0; cb < k; cb++ {
+			if n := len(cw.inv[c12Key{0, cb, p.Ski, w.mc}]); n != 1 {
+				c.Violate("callback/invoked-more-than-once", "write #%d callback %d: invoked %d times", w.idx, cb, n)
+			}
+		}
+	}
+	cw.mu.Unlock()
+	for _, d := range p.Tap.Peek() {
+		for _, w := range pl.writes {
+			if ref := d.Header.MsgCounterReference; ref != nil && *ref == w.mc {
+				c12CheckResultAddresses(cw, 0, 0, d)
+			}
+		}
+	}
+	decidedAll = len(decided) == len(pl.writes)
+	for _, w := range pl.writes {
+		if !decided[w] {
+			// not every callback approved and none denied cannot happen here (vectors are approve/deny only)
+			decidedAll = false
+		}
+	}
+}
+
+// c12CheckResultAddresses (gap "results are counted, not compared"): a result for a write comes from the server feature
+// the write addressed and goes to the client feature that wrote.
+func c12CheckResultAddresses(cw *c12World, pi, f int, d model.DatagramType) {
+	p := cw.w.Peers[pi]
+	if d.Header.CmdClassifier == nil || *d.Header.CmdClassifier != model.CmdClassifierTypeResult {
+		return
+	}
+	cw.mu.Lock()
+	cw.events++
+	cw.mu.Unlock()
+	if got, want := rig.JS(d.Header.AddressSource), rig.JS(cw.feats[f].Address()); got != want {
+		cw.c.Violate("result/source-is-not-the-server-feature", "peer%d received a result with source %s, the write addressed %s: %s", pi, got, want, rig.JS(d))
+	}
+	if got, want := rig.JS(d.Header.AddressDestination), rig.JS(cw.clientAddr(p)); got != want {
+		cw.c.Violate("result/destination-is-not-the-writing-client-feature", "peer%d received a result with destination %s, the write came from %s: %s", pi, got, want, rig.JS(d))
+	}
+}
+
+// ---------------------------------------------------------------------------
+// part "latecb": AddWriteApprovalCallback while writes are pending
+
+func c12LateCB(c *rig.Ctx) {
+	r := c.Rand
+	k := 1 + r.Intn(2)
+	pl := &c12Plan{k: k, layout: 0, gor: 1, splitA: 1000, label: "latecb", ctr: r.Intn(4)}
+	draw := func(n int, pDeny int) []int {
+		v := make([]int, n)
+		if r.Intn(100) < pDeny {
+			v[r.Intn(n)] = c12D
+		}
+		return v
+	}
+	n1, n2 := 1+r.Intn(2), 1+r.Intn(2)
+	var early, later []*c12Write
+	for i := 0; i < n1; i++ {
+		w := c12NewWrite(pl, 0, 0, draw(k, 25), r.Intn(2) == 0, c12Val(c, i))
+		w.class, w.timeout = "latecb", time.Duration(120+r.Intn(81))*time.Millisecond
+		pl.writes = append(pl.writes, w)
+		early = append(early, w)
+	}
+	for i := 0; i < n2; i++ {
+		w := c12NewWrite(pl, 0, 0, draw(k+1, 40), r.Intn(2) == 0, c12Val(c, n1+i))
+		pl.writes = append(pl.writes, w)
+		later = append(later, w)
+	}
+	prefix := r.Intn(k*n1 + 1) // verdict calls for the earlier writes made before the registration
+	pl.label = fmt.Sprintf("latecb[%d earlier, %d verdicts before the registration, %d later]", n1, prefix, n2)
+	cw := newC12World(c, pl)
+	defer func() {
+		cw.hooks.ReleaseAll()
+		if cw.noClose {
+			spine.SetVerifHook(nil)
+			return
+		}
+		cw.w.Close()
+	}()
+	c.Shape(pl.shape())
+	decided := false
+	defer func() {
+		cw.mu.Lock()
+		ev := cw.events
+		tr := append([]string(nil), cw.trace...)
+		cw.mu.Unlock()
+		c.Events(ev)
+		c.NonTrivial(decided && !cw.skip)
+		if len(tr) > 60 {
+			tr = tr[:60]
+		}
+		c.Sample(map[string]any{"plan": pl.shape(), "trace": tr})
+		if c.Failed() {
+			c.Witness(map[string]any{"plan": pl.shape(), "trace": cw.trace})
+		}
+	}()
+	for _, w := range early {
+		if !cw.send(w) {
+			return
+		}
+	}
+	var ds []c12Del
+	for _, w := range early {
+		for cb := range w.v {
+			ds = append(ds, c12Del{w, cb})
+		}
+	}
+	r.Shuffle(len(ds), func(i, j int) { ds[i], ds[j] = ds[j], ds[i] })
+	if !cw.run(ds[:prefix], 1, "before the registration of another callback") {
+		return
+	}
+	ds = ds[prefix:]
+	if err := cw.feats[0].AddWriteApprovalCallback(func(m *api.Message) { cw.onCallback(0, k, m) }); err != nil {
+		c.Violate("latecb/registration-refused", "AddWriteApprovalCallback while writes are pending: %v", err)
+		return
+	}
+	cw.log("the application registers approval callback %d while %d writes are pending", k, n1)
+	pl.k = k + 1 // the later writes are presented to k+1 callbacks
+	for _, w := range later {
+		if !cw.send(w) {
+			return
+		}
+	}
+	for _, w := range cw.all() {
+		cw.judge(w, false, "after the later writes were sent")
+	}
+	for _, w := range later {
+		for cb := range w.v {
+			ds = append(ds, c12Del{w, cb})
+		}
+	}
+	r.Shuffle(len(ds), func(i, j int) { ds[i], ds[j] = ds[j], ds[i] })
+	if !cw.run(ds, 1, "after the registration of another callback") {
+		return
+	}
+	// the earlier writes end by an approval or by their timer
+	p := cw.w.Peers[0]
+	for _, w := range early {
+		if rig.WaitFor(20*time.Second, func() bool { o := cw.observe(w); return o.applied || o.errs > 0 }) {
+			continue
+		}
+		if rig.WaitQuiet(cw.baseline, 5*time.Second) {
+			if pend, _ := cw.feats[0].VerifApprovalState(); pend[p.Ski] == 0 {
+				cw.judge(w, true, "no timer armed, process idle, 20s after a "+w.timeout.String()+" timeout")
+				return
+			}
+		}
+		c.Inconclusive("no outcome of write #%d (pending when a callback was registered) within 20s", w.idx)
+		cw.skip = true
+		return
+	}
+	for _, w := range early {
+		if d := time.Until(w.sentAt.Add(w.timeout + 25*time.Millisecond)); d > 0 {
+			time.Sleep(d)
+		}
+	}
+	if !rig.WaitQuiet(cw.baseline, 20*time.Second) {
+		c.Inconclusive("process did not become quiet")
+		cw.skip = true
+		return
+	}
+	for _, w := range cw.all() {
+		cw.judge(w, true, "at the end")
+		o := cw.observe(w)
+		if o.applied {
+			cw.expect[0][w.elem] = w.val
+			c.Count("latecb:"+w.class+":applied", 1)
+		} else {
+			c.Count("latecb:"+w.class+":error-result", 1)
+		}
+	}
+	cw.mu.Lock()
+	for _, w := range cw.all() {
+		for cb := 0; cb <= k; cb++ {
+			n := len(cw.inv[c12Key{0, cb, p.Ski, w.mc}])
+			switch {
+			case cb < len(w.v) && n != 1:
+				c.Violate("callback/not-invoked-exactly-once", "write #%d: callback %d (registered when the write came in) was invoked %d times", w.idx, cb, n)
+			case cb >= len(w.v) && n > 1:
+				c.Violate("callback/invoked-more-than-once", "write #%d: callback %d (registered while the write was pending) was invoked %d times", w.idx, cb, n)
+			}
+		}
+	}
+	cw.mu.Unlock()
+	for el := 1; el <= c12Elems; el++ {
+		if v, ok := cw.value(0, el); !ok || v != cw.expect[0][el] {
+			c.Violate("data/element-differs-from-outcomes", "element %d holds %d (present=%v), the outcomes observed imply %d\n%s", el, v, ok, cw.expect[0][el], strings.Join(cw.trace, "\n"))
+		}
+	}
+	for _, d := range p.Tap.Peek() {
+		if ref := d.Header.MsgCounterReference; ref == nil || !cw.known[0][*ref] {
+			c.Violate("tap/unattributable-datagram", "peer0 received a datagram that answers none of its messages: %s", rig.JS(d))
+		} else {
+			for _, w := range cw.all() {
+				if *ref == w.mc {
+					c12CheckResultAddresses(cw, 0, 0, d)
+				}
+			}
+		}
+	}
 	decided = true
 }
